@@ -129,6 +129,17 @@ def main():
                 _ = traverse_graph_with_sampled_series(ts.root_node, s, ts.relation_graph, 10)
             elif k == "list":
                 _ = get_ts(op["ts"]).infer_type(["POINT (1 2)", "x"])
+            elif k == "numpy":
+                ts = get_ts("standard")
+                arr = np.array(op["vals"], dtype=op["dtype"]) if op["dtype"] != "auto" else np.array(op["vals"])
+                _ = arr in vt.Float
+                _ = ts.detect_type(arr)
+                _ = ts.infer_type(arr)
+                _ = ts.cast_to_inferred(arr)
+            elif k == "pylist":
+                ts = get_ts(op["ts"])
+                _ = ts.detect_type(list(op["vals"]))
+                _ = ts.infer_type(list(op["vals"]))
             elif k == "edit":
                 # the caller edits a container in place between two calls on the same typeset
                 kind = op["kind"]
